@@ -766,9 +766,9 @@ example : Str4Leaf (fun v => v = "ab") Ex.envAB
     have := List.all_eq_true.1 h2 c hc
     simpa [tokChar, Bool.and_eq_true, and_assoc] using this
   refine ⟨Or.inr ⟨"sys_platform", "in", .in_, "a", by decide, by decide, tk _ (by decide) (by decide),
-      ⟨"a", rfl⟩, (by intro h; cases h), rfl⟩,
+      trivial, ⟨"a", rfl⟩, (by intro h; cases h), rfl⟩,
     Or.inr ⟨"sys_platform", "not in", .nc, "ab", by decide, by decide, tk _ (by decide) (by decide),
-      ⟨"a", rfl⟩, fun _ => rfl, rfl⟩, by decide⟩
+      trivial, ⟨"a", rfl⟩, fun _ => rfl, rfl⟩, by decide⟩
 
 /-! ### version lists on `python_version` -/
 
